@@ -10,13 +10,14 @@ PATCH="$(readlink -f "$1")"; shift
 N=$$
 R=/tmp/selftest_repo_$N
 V=/tmp/selftest_verif_$N
-trap 'git -C /repo worktree remove --force "$R" >/dev/null 2>&1; rm -rf "$R" "$V"' EXIT
+[ -n "${KEEP:-}" ] || trap 'git -C /repo worktree remove --force "$R" >/dev/null 2>&1; rm -rf "$R" "$V"' EXIT
 git -C /repo worktree add -q --detach "$R" HEAD || exit 2
 if [ "$PATCH" != "/dev/null" ]; then
   git -C "$R" apply "$PATCH" || { echo "patch does not apply"; exit 2; }
 fi
 mkdir -p "$V"
-rsync -a --exclude '.git' --exclude 'harness/target' --exclude 'replays' /verif/ "$V"/
+# consistent snapshot: no Coq build may be in progress while copying
+flock /verif/coq/.build.lock rsync -a --exclude '.git' --exclude 'harness/target' --exclude 'replays' /verif/ "$V"/
 sed -i "s|path = \"/repo\"|path = \"$R\"|" "$V/harness/Cargo.toml"
 cp "$R/Cargo.lock" "$V/harness/Cargo.lock" 2>/dev/null || true
 # reuse compiled dependencies: hard-link copy of the release target dir (falls back to a fresh build)
